@@ -117,4 +117,23 @@ def runContract : List Nat → List Call → List (Option Nat)
   | _, [] => []
   | l, c :: cs => let (o, l') := contractStep l c; o :: runContract l' cs
 
+/-! ## what a boolean query hands to its searcher -/
+
+/-- `shouldSearcher.Min() == 0` for the searcher of a should clause -/
+def shouldMin0 : Q → Bool
+  | .disj mn _ => mn == 0
+  | _ => true
+
+/-- the clause match lists and the "should is optional" flag handed to the boolean searcher; a query
+    with only must-not clauses gets a match-all must clause, as `BooleanQuery.Searcher` does -/
+def boolParts (m s n : Option Q) (docs : List Doc) :
+    Option (List Nat) × Option (List Nat) × Option (List Nat) × Bool :=
+  ((match m, s with
+    | Option.none, Option.none => some (docs.map (·.iid))
+    | _, _ => m.map (fun x => den x docs)),
+   s.map (fun x => den x docs), n.map (fun x => den x docs),
+   (match s with
+    | some x => shouldMin0 x
+    | Option.none => true))
+
 end Bleve.Query
